@@ -96,6 +96,9 @@ def main(a):
                 rnd["hashes"].update(part["hashes"])
                 rnd["executed"] += part["executed"]
                 rnd["deaths"] += part["deaths"]
+                if part.get("stopped_early"):
+                    rnd["stopped_early"] = True
+                    break
                 distinct_interleavings(ih_seen)
         else:
             rnd = orch.run_batch(binary, "RUNS", a.seed, 0, 1500, nw, ENV, chunk=10, args=args, stall=300)
@@ -111,7 +114,7 @@ def main(a):
         compared = len([r for r in g["hashes"] if r in rnd["hashes"]])
         if mism:
             harness_errors.append("event-log hash (events, schedule trace, results) differs between two executions of runs %s" % mism[:5])
-        if sorted((c["run"], c["sig"]) for c in g["candidates"]) != sorted((c["run"], c["sig"]) for c in rnd["candidates"] if c["run"] < ngate):
+        if sorted((c["run"], c["sig"]) for c in g["candidates"]) != sorted((c["run"], c["sig"]) for c in rnd["candidates"] if c["run"] < ngate) and not (g["stopped_early"] or rnd.get("stopped_early")):
             harness_errors.append("candidate set differs between two executions of the first %d runs" % ngate)
 
         cands = [dict(c, kind="random", seed=a.seed) for c in rnd["candidates"]]
